@@ -39,6 +39,7 @@ def check(ck):
     r14_3(ck)
     r14_4(ck)
     r14_5(ck)
+    r14_6(ck)
 
 
 def fstring_affixes(node):
@@ -329,6 +330,87 @@ def r14_3(ck):
              for r in rets)
     ck.require(ok, 'R14.3', dv, dv.node.name,
                'claimed data is handed to the claiming deserializer', None)
+
+
+def r14_6(ck):
+    ck.rule('R14.6', 'claim and conversion go together, rejection stays a '
+            'TypeError: a serializer class whose can_deserialize can answer '
+            'yes defines deserialize in the same class (the base class '
+            'claims nothing); the helper that names the offending keys on '
+            'the error path descends into dictionaries only (a string is '
+            'an iterable of strings: descending into iterables never '
+            'ends); the quantity serializer chooses the list form by '
+            'iterability, not by comparing a size with a constant')
+    base = ck.repo.cls('Serializer')
+    cd = base.methods.get('can_deserialize')
+    if cd is not None:
+        rets = [r for r in A.walk_no_nested(cd.node)
+                if isinstance(r, ast.Return) and r.value is not None]
+        claims = [r for r in rets if not (
+            isinstance(r.value, ast.Constant) and not r.value.value)]
+        ck.require(not claims, 'R14.6', cd, claims[0] if claims else
+                   cd.node.name,
+                   'the base serializer claims nothing to deserialize',
+                   'Serializer.can_deserialize can answer yes (%s) while '
+                   'Serializer.deserialize converts nothing: strings '
+                   'written by serializers without a deserializer (process '
+                   'and function markers) come back as None' % (
+                       A.unparse(claims[0].value) if claims else ''),
+                   claims[0] if claims else None)
+    mod = ck.repo.module('core.serialize')
+    for c in mod.classes.values():
+        if 'Serializer' not in [b.name for b in ck.repo.mro(c.name)[1:]]:
+            continue
+        own_cd = c.methods.get('can_deserialize')
+        if own_cd is None:
+            continue
+        ck.functions.add(own_cd.fq)
+        ck.require('deserialize' in c.methods, 'R14.6', own_cd,
+                   own_cd.node.name,
+                   '%s defines deserialize next to can_deserialize' % c.name,
+                   '%s claims data in can_deserialize but inherits a '
+                   'deserialize that returns None' % c.name)
+    # the error-path helper
+    fh = ck.fn('find_numpy_and_non_strings', 'core.serialize')
+    cfh = cfg_of(fh.node)
+    p0 = A.params_of(fh.node)[0]
+    recs = list(A.calls_in(fh.node, fh.name))
+    ck.require(bool(recs), 'R14.6', fh, fh.node.name,
+               'the key finder descends into nested dictionaries', None)
+    for c in recs:
+        g = cfh.guards(cfh.node(c))
+        tests = [a for a in g if a[0] == 'isinstance' and a[1] == p0]
+        ok = bool(tests) and all(
+            set(a[2].replace('(', '').replace(')', '').replace(
+                ' ', '').split(',')) <= {'dict', 'list', 'tuple', 'set',
+                                         'collections.abc.Mapping',
+                                         'Mapping'} for a in tests)
+        ck.require(ok, 'R14.6', fh, c,
+                   'the descent is limited to dictionaries (and plain '
+                   'containers)',
+                   'the key finder descends under %s: a string value is an '
+                   'iterable of one-character strings, so the descent '
+                   'never ends and serialize_value raises RecursionError '
+                   'where a TypeError is promised' % sorted(
+                       a for a in g if a[0] in ('isinstance',
+                                                'notisinstance')), c)
+    qs = ck.repo.cls('QuantitySerializer').methods['serialize']
+    cq = cfg_of(qs.node)
+    for n2 in ast.walk(qs.node):
+        if isinstance(n2, ast.Compare) and len(n2.ops) == 1 and isinstance(
+                n2.comparators[0], ast.Constant) and isinstance(
+                n2.comparators[0].value, int) and any(
+                isinstance(x, ast.Call) and A.call_name(x) in (
+                    'size', 'len') or isinstance(x, ast.Attribute)
+                and x.attr in ('size',) for x in ast.walk(n2.left)):
+            ck.fail('R14.6', qs, n2,
+                    'QuantitySerializer.serialize chooses between the list '
+                    'and the scalar form by `%s`: an array quantity of that '
+                    'size is written as one string and cannot be read back '
+                    'as the list it was' % A.unparse(n2), n2,
+                    what='the list form is chosen by iterability')
+    ck.ok('R14.6', qs, qs.node.name,
+          'no size comparison decides the form of a serialised quantity')
 
 
 def r14_4(ck):
